@@ -31,11 +31,11 @@ def gen_cases(tier, seed):
     for k in DUMPERS:
         if k in ("action", "action_noack"):
             continue
-        for ntags in ((256,) if q else (255, 256, 257, 258, 515)):
+        for ntags in ((256,) if q else (256, 257, 515)):
             base = c03.one(rng, k, B="@B@").split()
             base = [t for t in base if not t.startswith("A:")]
             big = ["A:%d:%s" % (rng.randrange(256), hx([rng.randrange(256) for _ in range(255)])) for _ in range(ntags)]
-            for bl in ((65535,) if q else (0, 1, 36, 300, 700, 1500, 40000, 65535, 65536)):
+            for bl in ((65535,) if q else (0, 700, 65535, 65536)):
                 if bl < ntags * 257:
                     cases.append(" ".join(base[:-1] + big + ["B%d" % bl])); n_huge += 1
     for _ in range(150 if q else 3000):
